@@ -322,6 +322,16 @@ M('c18-md5-init', 'C18', 'src/internal/md5/md5c.c', "    context->state[2] = 0x9
 M('c18-hasharr-fnv-slot', 'C18', 'src/containers/qhasharr.c', "    uint32_t hash = qhashmurmur3_32(name, namesize) % tbldata->maxslots;\n\n    // check, is slot empty",
   "    uint32_t hash = qhashfnv1_32(name, namesize) % tbldata->maxslots;\n\n    // check, is slot empty", 'H6', 'qhasharr_put_by_obj', 'put uses a different hash function than get')
 
+# ---- C20 -------------------------------------------------------------------------------------
+M('c20-no-off', 'C20', 'src/extensions/qaconf.c', '    else if (!strcasecmp(s, "off"))\n        return 0;\n', "", 'B1', '_is_str_bool', 'spelling off dropped')
+M('c20-case-sensitive', 'C20', 'src/extensions/qaconf.c', '    else if (!strcasecmp(s, "yes"))', '    else if (!strcmp(s, "yes"))', 'B1', '_is_str_bool', 'case-sensitive comparison')
+M('c20-false-is-unknown', 'C20', 'src/extensions/qaconf.c', '    else if (!strcasecmp(s, "no"))\n        return 0;', '    else if (!strcasecmp(s, "no"))\n        return -1;', 'B1', '_is_str_bool', 'one false spelling classified as not-a-boolean')
+M('c20-only-one', 'C20', 'src/extensions/qaconf.c', '(boolval > 0) ? "1" : "0"', '"1"', 'B2', '_parse_inline', 'always normalised to 1')
+M('c20-reject-false', 'C20', 'src/extensions/qaconf.c', "                            if (boolval >= 0) {", "                            if (boolval > 0) {", 'B2', '_parse_inline', 'false booleans rejected')
+M('c20-no-lineno', 'C20', 'src/extensions/qaconf.c', 'qaconf->filepath, qaconf->lineno, ##args);', 'qaconf->filepath, 0, ##args);', 'B3', '_parse_inline', 'error message without the line number')
+M('c20-uncounted', 'C20', 'src/extensions/qaconf.c', "        // Increase process counter\n        optcount++;", "        // Increase process counter", 'B4', '_parse_inline', 'directives not counted')
+M('c20-nested-not-added', 'C20', 'src/extensions/qaconf.c', "                optcount += optcount2;", "                (void) optcount2;", 'B4', '_parse_inline', 'nested directive counts dropped')
+
 
 def run_selftest(prop, rep, rule_fn, config='cmake-release'):
     """Apply every mutant of `prop` to a scratch copy, run rule_fn(prog, report) on it, and
